@@ -19,12 +19,12 @@ META = dict(
           "terms over the same RNG draw indices in every schedule; constructing any built-in dissimilarity makes no numpy RNG call (its self-check uses "
           "the stdlib generator); repeating the computation in one process consumes a fresh, equally shaped block of draws.",
     trusted="z3; jobs are atomic with respect to shared state (C14 shows they do not write to it); the real samplers draw every sample in the submitting thread (C15/C16 run them single-threaded)",
-    bounds=dict(quick="(+ both real samplers, one seeded generator, every order of a 3-name ground truth: same sample) n_samples in {1,2} (+ second batch of <= 2), all job orders; gamma_cat / gamma_k with 2 chance alignments", thorough="n_samples = 3 (24 orders), second batch <= 3"),
+    bounds=dict(quick="(+ both real samplers, one seeded generator, every order of a 3-name ground truth: same sample) n_samples in {1,2} (+ second batch of <= 2), all job orders - also with the root logger at INFO (--verbose) and with results collected through concurrent.futures.as_completed / wait (completion order = any permutation); gamma_cat / gamma_k with 2 chance alignments", thorough="n_samples = 3 (24 orders), second batch <= 3"),
     outside="pre-emptive interleavings inside a job (numba nogil code, CBC). The process hash seed cannot be seen by the symbolic model (its hash stand-in makes "
             "sets order-insensitive): it is covered only by a concrete cross-check on the real build, run with every check - the same seeded computations (both "
             "samplers, exact / fast / soft, gamma, gamma-cat, gamma-k) under PYTHONHASHSEED 0 / 4242 / 31337 with 1 / 16 / 3 workers must print identical numbers; "
             "that cross-check is a test, not part of the solver claim",
-    stubs=["ThreadPoolExecutor = deferred executor with nondeterministic job order", "alignment methods / sampler / np.std = spies as in C05"],
+    stubs=["ThreadPoolExecutor = deferred executor with nondeterministic job order", "concurrent.futures.as_completed / wait = completion in any order chosen by the scheduler", "alignment methods / sampler / np.std = spies as in C05"],
     assumptions=["jobs atomic w.r.t. shared state"],
     cfg_budget_s=dict(quick=240, thorough=900),
     replay_alarm_s=600,
@@ -37,6 +37,9 @@ def configs(tier):
         out.append(dict(key=f"schedule,exact,n_samples={n},precision=None", mode="exact", n=n, prec=None, cost=30 * 6 ** n))
         out.append(dict(key=f"schedule,fast-2,n_samples={n},precision=numeric", mode="fast-2", n=n, prec="numeric", extra=2 if tier == "quick" else 3, cost=200 * 6 ** n))
     out.append(dict(key="schedule,soft,n_samples=2,precision=medium", mode="soft", n=2, prec="medium", extra=1, cost=2000))
+    # the same with the root logger at INFO (what --verbose does): progress reporting must not change what is computed
+    out.append(dict(key="schedule,exact,n_samples=2,precision=None,root-logger=INFO", mode="exact", n=2, prec=None, verbose=True, cost=30 * 6 ** 2))
+    out.append(dict(key="schedule,fast-2,n_samples=1,precision=numeric,root-logger=INFO", mode="fast-2", n=1, prec="numeric", extra=2, verbose=True, cost=200 * 6))
     for meth in ("gamma_cat", "gamma_k"):
         out.append(dict(key=f"schedule,{meth},chance=2", mode=meth, n=2, cost=300))
     out.append(dict(key="dissimilarity-constructors-make-no-numpy-rng-call", mode="ctor", cost=10))
@@ -398,9 +401,10 @@ def replay(case):
     outs = []
     d = pa.CombinedCategoricalDissimilarity()
 
-    def run(workers, delay, soft=False, prec=None):
+    def run(workers, delay, soft=False, prec=None, verbose=False):
         np.random.seed(11)
         patches = [mock.patch.object(co.os, "cpu_count", lambda: workers)]
+        undo_log = c05.verbose_logging() if verbose else (lambda: None)
         if delay:
             patches.append(mock.patch.object(co, "ThreadPoolExecutor", ReversingExecutor))
         for p_ in patches:
@@ -411,11 +415,13 @@ def replay(case):
         finally:
             for p_ in patches:
                 p_.stop()
+            undo_log()
     try:
-        for soft, prec in ((False, None), (True, None), (False, 0.08), (True, 0.08)):       # with a precision level a second batch is drawn
-            outs = [run(1, False, soft, prec), run(16, True, soft, prec), run(16, True, soft, prec)]
+        # with a precision level a second batch is drawn; last: the root logger at INFO
+        for soft, prec, verbose in ((False, None, False), (True, None, False), (False, 0.08, False), (True, 0.08, False), (False, None, True), (False, 0.08, True)):
+            outs = [run(1, False, soft, prec, verbose), run(16, True, soft, prec, verbose), run(16, True, soft, prec, verbose)]
             if not (outs[0] == outs[1] == outs[2]):
-                return dict(reproduced=True, detail=f"seeded results depend on the thread schedule (soft={soft}, precision_level={prec}): "
+                return dict(reproduced=True, detail=f"seeded results depend on the thread schedule (soft={soft}, precision_level={prec}, root logger at {'INFO' if verbose else 'its default level'}): "
                                                     f"{outs[0]} vs {outs[1]} vs {outs[2]}"[:600])
     except Exception as ex:     # noqa: BLE001
         return dict(reproduced=True, detail="seeded gamma computation raised " + repr(ex)[:300])
